@@ -72,29 +72,36 @@ func hC02PKCERef(method, challenge, verifier string) bool {
 
 // hC02SymMethod: a code_challenge_method. `classes` selects how many of the classes are explored:
 // "S256", "plain", any 4-byte string, "", any string of 1..5 bytes.
-func hC02SymMethod(classes int) string {
-	switch vChoice(classes) {
+func hC02SymMethod(classes int) (string, int) {
+	class := vChoice(classes)
+	switch class {
 	case 0:
-		return "S256"
+		return "S256", class
 	case 1:
-		return "plain"
+		return "plain", class
 	case 2:
 		vTag("method")
-		return vString(4)
+		return vString(4), class
 	case 3:
-		return ""
+		return "", class
 	}
 	vTag("method")
-	return vString(vLen(1, 5))
+	return vString(vLen(1, 5)), class
 }
 
 // H02fk: validatePKCEParams accepts exactly when the reference predicate holds.
 func H02fk() {
-	method := hC02SymMethod(vParam("k_methods", 5))
+	method, _ := hC02SymMethod(vParam("k_methods", 5))
 	vTag("verifier")
 	verifier := vString(vLen(0, vParam("k_verifier", 2)))
+	// challenge lengths: around the 43 symbols of an S256 challenge, and the verifier's own length (what a
+	// "plain" comparison would need)
+	clen := 43 + vLen(0, 3) - 1
+	if clen == 45 {
+		clen = len(verifier)
+	}
 	vTag("challenge")
-	challenge := vString(43 + vLen(0, 2) - 1)
+	challenge := vString(clen)
 	got := validatePKCEParams(PKCEParams{Challenge: challenge, ChallengeMethod: method, Verifier: verifier})
 	want := hC02PKCERef(method, challenge, verifier)
 	if got {
@@ -148,9 +155,14 @@ func H02f() {
 	sessClient := vString(vLen(0, 1))
 	vTag("session.scope")
 	sessScope := vString(1)
-	method := hC02SymMethod(vParam("f_methods", 3))
+	method, mclass := hC02SymMethod(vParam("f_methods", 3))
+	vfLen := vLen(0, vParam("f_verifier", 1))
+	clen := 43
+	if mclass != 0 && vBool() {
+		clen = vfLen // what a "plain" comparison would need
+	}
 	vTag("session.challenge")
-	challenge := vString(43)
+	challenge := vString(clen)
 	vTag("storedcode")
 	storedCode := vString(1)
 	stored := vBool()
@@ -168,7 +180,7 @@ func H02f() {
 
 	req := HandleTokenRequestFormdataRequestBody{
 		Code:         hC02OptString("code", 1),
-		CodeVerifier: hC02OptString("verifier", vLen(0, vParam("f_verifier", 1))),
+		CodeVerifier: hC02OptString("verifier", vfLen),
 		ClientId:     hC02OptString("client_id", vLen(0, 1)),
 	}
 	dpopHeader := vBool()
